@@ -58,6 +58,21 @@ func runC07(r *core.Run) {
 		cols := append([]string{"id"}, names...)
 		gens := append([]colGen{genID}, kinds...)
 		t := genTable(r, "t", cols, gens, n)
+		// every seventh case: column k4 holds dates in a notation the user declares (SET @@DATETIME_FORMAT): month name first,
+		// so that the alphabetical and the chronological order differ
+		customDT := c%7 == 6
+		if customDT {
+			for i := range t.Rows {
+				if rng.Intn(9) == 0 {
+					t.Rows[i][4] = classify("", true)
+					continue
+				}
+				tm := time.Date(2019+rng.Intn(3), time.Month(1+rng.Intn(12)), 1+rng.Intn(28), 0, 0, 0, 0, time.UTC)
+				cell := classify(tm.Format("Jan 2, 2006"), false)
+				cell.HasD, cell.D = true, tm.Unix()-1300000000
+				t.Rows[i][4] = cell
+			}
+		}
 		nk := 1 + rng.Intn(3)
 		// every fourth case aims the cut of LIMIT .. WITH TIES into a group of equal keys: one or two keys
 		// with few distinct values in several spellings, limit anywhere inside the table
@@ -102,7 +117,7 @@ func runC07(r *core.Run) {
 		// every sixth case: the select list is a permutation of the columns, made DISTINCT (a no-op: id is among them) and
 		// extended by an analytic function with an ORDER BY of its own - the final ORDER BY must still sort by ITS keys
 		var perm []int
-		if c%6 == 3 && n > 0 {
+		if c%6 == 3 && n > 0 && !customDT {
 			perm = rng.Perm(6)
 			var names2 []string
 			for _, pi := range perm {
@@ -152,8 +167,22 @@ func runC07(r *core.Run) {
 		}
 		cpu := []int{1, 4, 8}[rng.Intn(3)]
 		x := newRelRun(r, cpu, t)
-		res, _, e := x.query(sql + ";")
+		pre := ""
+		if customDT {
+			pre = "SET @@DATETIME_FORMAT TO '%b %e, %Y'; "
+		}
+		res, _, e := x.query(pre + sql + ";")
 		x.close()
+		if customDT {
+			// the result cells of k4 are datetimes under the declared notation as well
+			for i := range res {
+				if len(res[i]) > 4 && !res[i][4].N {
+					if tm, err := time.Parse("Jan 2, 2006", res[i][4].T); err == nil {
+						res[i][4].HasD, res[i][4].D = true, tm.Unix()-1300000000
+					}
+				}
+			}
+		}
 		sig := "order"
 		if lim["k"] != "none" {
 			sig += ":limit-" + lim["k"].(string)
